@@ -254,6 +254,27 @@ Definition has_repeated_keys (s : summary) : bool :=
   let ids := map k_id (all_keys (s_nodes s)) in
   negb (N.of_nat (PositiveSet.cardinal (key_set ids)) =? N.of_nat (length ids)).
 
+(* ExtData::tree_height, the rule of every constructor (type_check / the cast_* and binary
+   rules): a fragment without sub-fragments has height 0, every wrapper and combinator is one
+   more than its deepest child.  Input: the numbers of children in pre-order; fuel = length. *)
+Fixpoint height_pre (fuel : nat) (l : list N) : N * list N :=
+  match fuel with
+  | O => (0, l)
+  | S f =>
+      match l with
+      | [] => (0, [])
+      | a :: r =>
+          let fix kids (k : nat) (l : list N) (acc : N) : N * list N :=
+            match k with
+            | O => (acc, l)
+            | S k' => let '(h, rest) := height_pre f l in kids k' rest (N.max acc h)
+            end in
+          let '(m, rest) := kids (N.to_nat a) r 0 in
+          ((if a =? 0 then 0 else 1 + m), rest)
+      end
+  end.
+Definition tree_height_of (arities : list N) : N := fst (height_pre (S (length arities)) arities).
+
 (* ------------------------------------------------------------------ validation errors *)
 Inductive verr :=
 | EDuplicateKeys | EIllegalDupIf | EIllegalMulti | EIllegalMultiA | EIllegalOrI | EIllegalRawPkh
